@@ -14,7 +14,7 @@
 
 enum { OK_CTR, OK_PAR };
 enum { PH_ZERO, PH_LIVE, PH_CLEANED, PH_FAILED };
-enum { L_INIT, L_KEY, L_TKEY, L_TWEAK, L_CTR, L_USE, L_USEBIG, L_SWAP, L_CLEANUP, L_KEYSHORT };
+enum { L_INIT, L_KEY, L_TKEY, L_TWEAK, L_CTR, L_USE, L_USEBIG, L_SWAP, L_CLEANUP, L_KEYSHORT, L_USE0 };
 
 static int g_mode;               /* 15 or 17 */
 static int g_okind; static Cipher g_c; static int g_be, g_bs;
@@ -51,6 +51,7 @@ static void l_build(void)
             l_ops[l_nops].type = L_CTR; l_ops[l_nops++].obj = i;
         }
         l_ops[l_nops].type = L_USE; l_ops[l_nops++].obj = i;
+        if (g_mode == 15) { l_ops[l_nops].type = L_USE0; l_ops[l_nops++].obj = i; }      /* zero-length request: still 0 on a dead object */
         if (g_mode == 17 && g_okind == OK_CTR) { l_ops[l_nops].type = L_USEBIG; l_ops[l_nops++].obj = i; }
         if (g_okind == OK_PAR && g_c == CK_MANTIS) { l_ops[l_nops].type = L_SWAP; l_ops[l_nops++].obj = i; }
         l_ops[l_nops].type = L_CLEANUP; l_ops[l_nops++].obj = i;
@@ -81,7 +82,7 @@ static int l_enabled(int op)
 
 static void l_opname(int op, char *buf, size_t n)
 {
-    static const char *nm[] = {"init", "set_key", "set_tweaked_key", "set_tweak", "set_counter", "use", "use(batch+3)", "swap_modes", "cleanup", "set_key(shortest)"};
+    static const char *nm[] = {"init", "set_key", "set_tweaked_key", "set_tweak", "set_counter", "use", "use(batch+3)", "swap_modes", "cleanup", "set_key(shortest)", "use(0 bytes)"};
     snprintf(buf, n, "%s(obj%d)", nm[l_ops[op].type], l_ops[op].obj);
 }
 
@@ -180,6 +181,10 @@ static void l_apply(int op, int check)
         if (g_okind == OK_CTR) r = ctr_encrypt(g_c, &b->h.c, out, in, n);
         else r = par_crypt(g_c, &b->h.p, out, in, tw, (size_t)g_bs * 3, 0);
         break; }
+    case L_USE0:
+        if (g_okind == OK_CTR) r = ctr_encrypt(g_c, &b->h.c, out, in, 0);
+        else r = par_crypt(g_c, &b->h.p, out, in, tw, 0, 0);
+        break;
     case L_SWAP:
         par_swap_modes(&b->h.p); r = -2;
         break;
@@ -222,7 +227,7 @@ static void l_apply(int op, int check)
         } else if (o->type != L_INIT && g_mode == 15) {
             if (g_alloc_calls != calls0 || count_frees() != frees0) l_report("unexpected-allocation", op, "a non-init call used the allocator");
             if (b->phase != PH_LIVE && r != 0 && r != -2) l_report("dead-object-accepted", op, "call on a %s object returned %d", b->phase == PH_ZERO ? "zeroed" : "cleaned-up", r);
-            if (b->phase == PH_LIVE && r == 0 && (o->type == L_KEY || o->type == L_KEYSHORT || o->type == L_TKEY || o->type == L_CTR || ((o->type == L_USE) && b->keyed)))
+            if (b->phase == PH_LIVE && r == 0 && (o->type == L_KEY || o->type == L_KEYSHORT || o->type == L_TKEY || o->type == L_CTR || ((o->type == L_USE || o->type == L_USE0) && b->keyed)))
                 l_report("live-object-rejected", op, "valid call on a live object returned 0");
         }
         /* conservation: blocks owned by live objects == live blocks */
